@@ -5,12 +5,14 @@ mod attrs;
 mod enc;
 mod env;
 mod esc;
+mod family;
 mod gen;
 mod ns;
 mod obs;
 mod record_reader;
 mod reader;
 mod replay_reader;
+mod serde_leg;
 mod writer;
 
 use std::collections::HashMap;
@@ -129,6 +131,29 @@ fn main() {
         "enc-record" => {
             let s = enc::record(&get("out", "work/enc.ndjson"), seed, get("n", "10").parse().unwrap());
             println!("SUMMARY {}", serde_json::to_string(&s).unwrap());
+        }
+        "serde-probe" => {
+            let v: serde_json::Value = serde_json::from_str(&get("json", "null")).unwrap();
+            for (q, ind, ee) in [(0u8, None, false), (2, Some((' ', 2)), true)] {
+                let o = family::SerOpts { quote: q, indent: ind, expand_empty: ee, root: m.get("root").cloned() };
+                match family::ser(&get("ty", "F01"), &v, &o) {
+                    Ok(x) => println!("{:?}\n  -> {:?}", x, family::de_str(&get("ty", "F01"), &x)),
+                    Err(e) => println!("ERR {e}"),
+                }
+            }
+        }
+        "serde-replay" => {
+            let s = serde_leg::replay(&serde_leg::Opts { file: get("file", ""), prop: get("prop", "C06"), out_dir: get("out-dir", "evidence/replay"), aspect: get("aspect", "c06"), seed });
+            println!("SUMMARY {}", serde_json::to_string(&s).unwrap());
+        }
+        "serde-record" => {
+            let s = serde_leg::record(&get("file", ""), &get("out", "work/serde.ndjson"), seed, get("every", "3").parse().unwrap());
+            println!("SUMMARY {}", serde_json::to_string(&s).unwrap());
+        }
+        "serde-rerun" => {
+            let still = serde_leg::rerun(&get("file", ""));
+            println!("{}", if still { "STILL-FAILS" } else { "PASSES-NOW" });
+            std::process::exit(if still { 1 } else { 0 });
         }
         "reader-rerun" => {
             let still = replay_reader::rerun(&get("file", ""));
